@@ -154,6 +154,12 @@ def run(ctx):
         if not exp:
             raise tlc.MachineryFailure("C07 model: no terminal state emitted in scenario %d" % si)
         expected.append(exp[0]["expected"])
+    # unbounded-time lemma about the lock discipline (Apalache, inductive invariant); a failure here means the
+    # abstract discipline itself is unsound, a missing tool is only noted
+    ok_l, detail = tlc.apalache_inductive("C07_LockInd")
+    if not ok_l and "not runnable" not in detail:
+        raise tlc.MachineryFailure("C07_LockInd: inductive invariant not discharged: " + detail)
+    ctx.note("proved_lemmas", {"C07_LockInd (mutual exclusion, 4 threads, unbounded time; Apalache inductive invariant)": detail})
     ctx.note("faulty_designs_refuted", {"none": "yes", "readlen_outside": "yes", "scenarios": len(scen)})
 
     # ---- real threads ---------------------------------------------------------------------
